@@ -100,10 +100,14 @@ def run(pid, tier):
         c = cases[r['c'] - 1]
         recs.append({'id': 'c%d%s' % (r['c'], r['goal']), 'w': c['w'], 'pairs': r['pairs'], 'runs': r['runs'], 'panic': r['panic']})
     cans = []
-    b = next(r for r in recs if not r['panic'] and r['runs'][0]['cost'] and len([p for p in r['pairs'] if p]) >= 2 and len({json.dumps(p) for p in r['pairs'] if p}) >= 2)
-    c = copy.deepcopy(b); c['runs'][3]['cost'] = [x + 1000 for x in c['runs'][3]['cost']]; cans.append((c, 'SameAsSequential'))
-    c = copy.deepcopy(b); worst = max((p for p in c['pairs'] if p)); c['runs'] = [dict(r, cost=worst) for r in c['runs']]; cans.append((c, 'Minimal'))
-    c = copy.deepcopy(b); c['panic'] = 'boom'; cans.append((c, 'NoPanic'))
+    can_skip = False
+    try:
+        b = next(r for r in recs if not r['panic'] and r['runs'][0]['cost'] and len([p for p in r['pairs'] if p]) >= 2 and len({json.dumps(p) for p in r['pairs'] if p}) >= 2)
+        c = copy.deepcopy(b); c['runs'][3]['cost'] = [x + 1000 for x in c['runs'][3]['cost']]; cans.append((c, 'SameAsSequential'))
+        c = copy.deepcopy(b); worst = max((p for p in c['pairs'] if p)); c['runs'] = [dict(r, cost=worst) for r in c['runs']]; cans.append((c, 'Minimal'))
+        c = copy.deepcopy(b); c['panic'] = 'boom'; cans.append((c, 'NoPanic'))
+    except StopIteration:
+        can_skip = True          # no record to corrupt (the code under test answered nothing of that kind): judged below
     fj = os.path.join(d, 'judge.ndjson')
     common.write_ndjson(fj, recs + [c[0] for c in cans])
     jr = common.tlc('JudgeParallel', env={'RECS': fj}, workers=1, name=pid + '-judge', timeout=3000, xmx='8g')
@@ -128,6 +132,8 @@ def run(pid, tier):
     # 3. solver under layouts
     lay = layouts_part(pid, tier, rnd, verdict)
     rc = verdict.finish()
+    if can_skip and rc == 0:
+        raise ToolError('no base record for the vacuity canaries and no violation reported')
     cov = {'states': mc.distinct + neg.distinct + jr.distinct + lay['oracle_states'], 'transitions': mc.generated + jr.generated, 'traces_validated_against_impl': len(recs) + lay['records_judged'],
            'evaluations': sum(len(r['runs']) for r in recs) + lay['runs'], 'distinct_nontrivial': sum(1 for r in recs if len({json.dumps(p) for p in r['pairs'] if p}) >= 2),
            'rule': 'one evaluation = one evaluate_all call inside a pool of n threads on a TLC-generated context (judged against the minimum of all single evaluations), or one full solver run under a pool layout judged by the VrpModel oracle; non-trivial = contexts with at least two different feasible pair costs',
